@@ -181,8 +181,8 @@ Theorem C16_new_no_fault :
          (init_parts : ty -> option (option ty * list val)) (creatable : ty -> option (ctor ty val bty))
          (loader_ctor : str -> option (ctor ty val bty)) (load_type : str -> option ty)
          (as_array : val -> option (list val)) (r : recv ty) (args : list val),
-    (forall (t : ty) (c : ctor ty val bty), creatable t = Some c -> ctor_ok c) ->
-    (forall (n : str) (c : ctor ty val bty), loader_ctor n = Some c -> ctor_ok c) ->
+    (forall (t : ty) (c : ctor ty val bty), creatable t = Some c -> ctor_ok inst binst c) ->
+    (forall (n : str) (c : ctor ty val bty), loader_ctor n = Some c -> ctor_ok inst binst c) ->
     (forall (t : ty) (t' : option ty) (ia : list val),
         init_parts t = Some (t', ia) -> Z.of_nat (length (args ++ ia)) < max_int64) ->
     (forall (a : val) (vs : list val), as_array a = Some vs -> Z.of_nat (length vs) < max_int64) ->
@@ -190,6 +190,14 @@ Theorem C16_new_no_fault :
     no_fault (new_instance inst binst tname init_parts creatable loader_ctor load_type as_array r args).
 Proof. exact new_no_fault. Qed.
 Print Assumptions C16_new_no_fault.
+
+(* A core constructor modelled end to end (dispatch table AND body, booleantype.go:36-62): for EVERY argument
+   list, Boolean.new yields a Boolean or the reported argument error. *)
+Theorem C16_boolean_new_total :
+  forall args : list pval,
+    (exists b, pnew_modelled PBoolean args = OVal (VBool b)) \/ pnew_modelled PBoolean args = OErr EArg.
+Proof. exact boolean_new_total. Qed.
+Print Assumptions C16_boolean_new_total.
 
 (* ---- non-vacuity ------------------------------------------------------------------------------------------ *)
 
@@ -248,3 +256,20 @@ Proof. vm_compute. reflexivity. Qed.
 Example C16_new_in_type_nonvacuous :
   exists v, pnew (PInteger 0 5) [VStr [51%N]] (OVal (VInt 3)) = OVal v /\ pinst (PInteger 0 5) v = true.
 Proof. exists (VInt 3). split; vm_compute; reflexivity. Qed.
+
+(* the hypotheses of C16_new_no_fault are satisfiable: the registered Boolean constructor is a built function
+   whose body does not fault on what its declaration admits *)
+Example C16_ctor_ok_nonvacuous :
+  exists c, modelled_loader boolean_name = Some c /\ ctor_ok pinst no_block c.
+Proof.
+  exists (boolean_ds, boolean_body). split; [|exact boolean_ctor_ok].
+  unfold modelled_loader. replace (str_eqb boolean_name boolean_name) with true by reflexivity. exact boolean_ctor_eq.
+Qed.
+
+Example C16_boolean_new_nonvacuous :
+  map (pnew_modelled PBoolean)
+      [ [VInt 0]; [VInt 7]; [VFloat 0]; [VFloat 9223372036854775808]; [VBool false]; [VStr [78%N; 111%N]];
+        [VStr [89%N; 69%N; 83%N]]; [VStr [97%N]]; [VUndef]; []; [VInt 1; VInt 2] ]
+  = [ OVal (VBool false); OVal (VBool true); OVal (VBool false); OVal (VBool false); OVal (VBool false);
+      OVal (VBool false); OVal (VBool true); OErr EArg; OErr EArg; OErr EArg; OErr EArg ].
+Proof. vm_compute. reflexivity. Qed.
